@@ -49,6 +49,17 @@ pub fn gen_cone(rng: &mut Rng, allow_dd: bool) -> Case {
       depth = d.saturating_sub(dd);
     }
     let (mut lon, mut lat) = cone_center(rng);
+    // small-cone branch (start depth >= query depth) next to the places where the cell-size bound changes regime:
+    // the transition latitude (both sides), the poles, LAT_OF_SQUARE_CELL, and the seams k.pi/2
+    if rng.below(8) == 0 {
+      let d = rng.below(30) as usize; depth = (d as u8).min(29 - dd);
+      let r2 = thr[d] * rng.range(0.05, 1.0);
+      let tl = trans_lat(); let s = if rng.coin() { 1.0 } else { -1.0 };
+      lat = s * match rng.below(4) { 0 | 1 => tl + (rng.f() - 0.5) * 4.0 * r2, 2 => PI / 2.0 - rng.f() * 3.0 * r2, _ => LAT_OF_SQUARE_CELL + (rng.f() - 0.5) * 4.0 * r2 };
+      lat = lat.max(-PI / 2.0).min(PI / 2.0);
+      if rng.coin() { lon = (rng.below(5) as f64) * PI / 2.0 + (rng.f() - 0.5) * 6.0 * r2 / lat.cos().max(1e-12); }
+      return Case::new("cone").u("depth", depth as u64).u("dd", dd as u64).f("lon", lon.rem_euclid(TWO_PI)).f("lat", lat).f("r", r2.max(1e-10)).u("s", rng.next() >> 1);
+    }
     match rng.below(12) {
       0 => { let d = rng.below(30) as u8; let cs = sample_cells(rng, d, 4); let h = *rng.pick(&cs); let c = nested::get_or_create(d).center(h); lon = c.0; lat = c.1; }
       1 => { let d = rng.below(30) as u8; let cs = sample_cells(rng, d, 4); let h = *rng.pick(&cs); let v = nested::get_or_create(d).vertices(h)[rng.below(4) as usize]; lon = v.0; lat = v.1; }
